@@ -1,3 +1,559 @@
-From Coq Require Import ZArith List Bool Arith Lia.
+(** C21 — lemmas and proofs for Props_C21.v *)
+From Coq Require Import ZArith List Bool Arith Lia Permutation.
 From ErgV Require Import Graph.Model Graph.Spec.
+From ErgV Require Import Graph.ProofsReach.
+From ErgV Require Graph.ProofsTsort.
 Import ListNotations.
+Open Scope Z_scope.
+
+(* ====================================================================== *)
+(* Basics.v *)
+(* ---------- position *)
+Lemma position_None : forall p l, position p l = None <-> ~ In p l.
+Proof.
+  intros p l. induction l as [|x r IH]; cbn [position In].
+  - tauto.
+  - destruct (Z.eqb x p) eqn:He.
+    + apply Z.eqb_eq in He. split; [discriminate|]. intros H. exfalso. apply H. auto.
+    + apply Z.eqb_neq in He. destruct (position p r) eqn:Hp; cbn [option_map].
+      * split; [discriminate|]. intros H. exfalso. apply H. right.
+        destruct (in_dec Z.eq_dec p r) as [Hi|Hn]; [exact Hi|]. apply IH in Hn. discriminate.
+      * split; [|reflexivity]. intros _ [H|H]; [congruence|]. apply IH in H; auto.
+Qed.
+Lemma position_Some_In : forall p l i, position p l = Some i -> In p l.
+Proof.
+  intros p l i H. destruct (in_dec Z.eq_dec p l) as [Hi|Hn]; [exact Hi|].
+  apply position_None in Hn. congruence.
+Qed.
+Lemma position_nth : forall p l i, position p l = Some i -> nth_error l i = Some p.
+Proof.
+  intros p l. induction l as [|x r IH]; intros i H; cbn [position] in H.
+  - discriminate.
+  - destruct (Z.eqb x p) eqn:He.
+    + apply Z.eqb_eq in He. inversion H. subst. reflexivity.
+    + destruct (position p r) eqn:Hp; cbn [option_map] in H; [|discriminate].
+      inversion H. subst. cbn [nth_error]. apply IH. reflexivity.
+Qed.
+Lemma position_app : forall p l1 l2,
+  position p (l1 ++ l2) = match position p l1 with
+                          | Some i => Some i
+                          | None => option_map (fun j => (length l1 + j)%nat) (position p l2)
+                          end.
+Proof.
+  intros p l1 l2. induction l1 as [|x r IH]; cbn [position app length].
+  - destruct (position p l2); reflexivity.
+  - destruct (Z.eqb x p); [reflexivity|]. rewrite IH.
+    destruct (position p r); cbn [option_map]; [reflexivity|].
+    destruct (position p l2); reflexivity.
+Qed.
+
+Definition shift (i j : nat) : nat := if Nat.ltb i j then pred j else j.
+
+Lemma position_remove_nth : forall l p i q, NoDup l -> position p l = Some i ->
+  position q (remove_nth l i) = if Z.eqb p q then None else option_map (shift i) (position q l).
+Proof.
+  induction l as [|x r IH]; intros p i q Hnd Hp; cbn [position] in Hp.
+  - discriminate.
+  - inversion Hnd as [|? ? Hx Hr]; subst.
+    destruct (Z.eqb x p) eqn:He.
+    + apply Z.eqb_eq in He. subst x. inversion Hp; subst i. cbn [remove_nth position].
+      destruct (Z.eqb p q) eqn:Hq.
+      * apply Z.eqb_eq in Hq. subst q. apply position_None. exact Hx.
+      * destruct (position q r); reflexivity.
+    + destruct (position p r) as [i'|] eqn:Hpr; cbn [option_map] in Hp; [|discriminate].
+      inversion Hp; subst i. cbn [remove_nth position].
+      destruct (Z.eqb x q) eqn:Hxq.
+      * apply Z.eqb_eq in Hxq. subst q. rewrite (Z.eqb_sym p x), He. reflexivity.
+      * rewrite (IH p i' q Hr Hpr). destruct (Z.eqb p q); [reflexivity|].
+        destruct (position q r) as [j|]; cbn [option_map]; [|reflexivity].
+        unfold shift. f_equal.
+        destruct (Nat.ltb_spec i' j) as [H1|H1]; destruct (Nat.ltb_spec (S i') (S j)) as [H2|H2]; cbn [pred]; lia.
+Qed.
+
+Lemma position_map_ren : forall old new l q, ~ In new l -> new <> old ->
+  position q (map (ren old new) l) =
+    if Z.eqb new q then position old l else if Z.eqb old q then None else position q l.
+Proof.
+  intros old new l q. induction l as [|x r IH]; intros Hn Hne; cbn [map position].
+  - destruct (Z.eqb new q); [reflexivity|]. destruct (Z.eqb old q); reflexivity.
+  - assert (Hxn : x <> new) by (intros ->; apply Hn; left; reflexivity).
+    assert (Hr : ~ In new r) by (intros H; apply Hn; right; exact H).
+    specialize (IH Hr Hne). unfold ren at 1.
+    destruct (Z.eqb x old) eqn:Hxo.
+    + apply Z.eqb_eq in Hxo. subst x. rewrite IH.
+      destruct (Z.eqb new q) eqn:H1; [reflexivity|].
+      destruct (Z.eqb old q) eqn:H2; reflexivity.
+    + rewrite IH. destruct (Z.eqb new q) eqn:H1.
+      * apply Z.eqb_eq in H1. subst q. apply Z.eqb_neq in Hxn. rewrite Hxn. reflexivity.
+      * destruct (Z.eqb old q) eqn:H2.
+        -- apply Z.eqb_eq in H2. subst q. rewrite Hxo. reflexivity.
+        -- reflexivity.
+Qed.
+
+(* ---------- the index dictionary *)
+Lemma idx_get_app : forall a b q,
+  idx_get (a ++ b) q = match idx_get a q with Some v => Some v | None => idx_get b q end.
+Proof.
+  induction a as [|[k v] r IH]; intros b q; cbn [app idx_get]; [reflexivity|].
+  destruct (Z.eqb k q); [reflexivity|apply IH].
+Qed.
+Lemma idx_get_remove : forall ix p q,
+  idx_get (idx_remove ix p) q = if Z.eqb p q then None else idx_get ix q.
+Proof.
+  induction ix as [|[k v] r IH]; intros p q; unfold idx_remove; cbn [filter idx_get fst].
+  - destruct (Z.eqb p q); reflexivity.
+  - fold (idx_remove r p). destruct (Z.eqb k p) eqn:Hkp; cbn [negb].
+    + apply Z.eqb_eq in Hkp. subst k. rewrite IH. destruct (Z.eqb p q); reflexivity.
+    + cbn [idx_get]. rewrite IH. destruct (Z.eqb k q) eqn:Hkq; [|reflexivity].
+      apply Z.eqb_eq in Hkq. subst k. rewrite Z.eqb_sym, Hkp. reflexivity.
+Qed.
+Lemma idx_get_insert : forall ix p v q,
+  idx_get (idx_insert ix p v) q = if Z.eqb p q then Some v else idx_get ix q.
+Proof.
+  intros ix p v q. unfold idx_insert. rewrite idx_get_app, idx_get_remove. cbn [idx_get].
+  destruct (Z.eqb p q); [reflexivity|]. destruct (idx_get ix q); reflexivity.
+Qed.
+Lemma idx_get_map : forall (f : nat -> nat) ix q,
+  idx_get (map (fun kv => (fst kv, f (snd kv))) ix) q = option_map f (idx_get ix q).
+Proof.
+  intros f. induction ix as [|[k v] r IH]; intros q; cbn [map idx_get fst snd]; [reflexivity|].
+  destruct (Z.eqb k q); [reflexivity|apply IH].
+Qed.
+
+(* ---------- list surgery *)
+Lemma map_update_nth : forall (l : list node) i f, (forall n, nid (f n) = nid n) ->
+  map nid (update_nth l i f) = map nid l.
+Proof.
+  induction l as [|x r IH]; intros i f Hf; destruct i; cbn [update_nth map]; try reflexivity.
+  - rewrite Hf. reflexivity.
+  - rewrite IH by exact Hf. reflexivity.
+Qed.
+Lemma map_remove_nth : forall {A B} (f : A -> B) l i, map f (remove_nth l i) = remove_nth (map f l) i.
+Proof.
+  intros A B f. induction l as [|x r IH]; intros i; destruct i; cbn [remove_nth map]; try reflexivity.
+  rewrite IH. reflexivity.
+Qed.
+Lemma In_remove_nth : forall {A} (l : list A) i x, In x (remove_nth l i) -> In x l.
+Proof.
+  intros A. induction l as [|y r IH]; intros i x H; destruct i; cbn [remove_nth] in H; cbn [In] in *; auto.
+  destruct H as [H|H]; [auto|right; eapply IH; exact H].
+Qed.
+Lemma NoDup_remove_nth : forall {A} (l : list A) i, NoDup l -> NoDup (remove_nth l i).
+Proof.
+  intros A. induction l as [|y r IH]; intros i H; destruct i; cbn [remove_nth]; try assumption.
+  - inversion H; assumption.
+  - inversion H as [|? ? Hy Hr]; subst. constructor; [|apply IH; exact Hr].
+    intros Hin. apply Hy. eapply In_remove_nth. exact Hin.
+Qed.
+Lemma map_nid_strip : forall p l, map nid (map (strip_dep p) l) = map nid l.
+Proof. intros p l. rewrite map_map. apply map_ext. reflexivity. Qed.
+Lemma map_nid_rename : forall a b l, map nid (map (rename_node a b) l) = map (ren a b) (map nid l).
+Proof. intros a b l. rewrite !map_map. apply map_ext. intros n. reflexivity. Qed.
+
+Lemma NoDup_map_ren : forall old new l, NoDup l -> ~ In new l -> NoDup (map (ren old new) l).
+Proof.
+  intros old new l Hnd Hn. induction Hnd as [|x r Hx Hr IH]; cbn [map]; [constructor|].
+  assert (Hr' : ~ In new r) by (intros H; apply Hn; right; exact H).
+  assert (Hxn : x <> new) by (intros ->; apply Hn; left; reflexivity).
+  constructor; [|apply IH; exact Hr'].
+  rewrite in_map_iff. intros [y [Hy Hyr]]. unfold ren in Hy.
+  destruct (Z.eqb y old) eqn:H1; destruct (Z.eqb x old) eqn:H2.
+  - apply Z.eqb_eq in H1. apply Z.eqb_eq in H2. apply Hx. rewrite H2, <- H1. exact Hyr.
+  - apply Hxn. symmetry. exact Hy.
+  - apply Hr'. rewrite <- Hy. exact Hyr.
+  - apply Hx. rewrite <- Hy. exact Hyr.
+Qed.
+
+(* ---------- find_node vs position *)
+Lemma find_node_position : forall ns p,
+  find_node ns p = match position p (map nid ns) with Some i => nth_error ns i | None => None end.
+Proof.
+  induction ns as [|n r IH]; intros p; unfold find_node; cbn [find map position]; [reflexivity|].
+  destruct (Z.eqb (nid n) p); [reflexivity|]. fold (find_node r p). rewrite IH.
+  destruct (position p (map nid r)); reflexivity.
+Qed.
+Lemma find_node_Some : forall ns p n, find_node ns p = Some n -> In n ns /\ nid n = p.
+Proof.
+  intros ns p n H. unfold find_node in H. apply find_some in H. destruct H as [H1 H2].
+  apply Z.eqb_eq in H2. auto.
+Qed.
+Lemma find_node_None : forall ns p, find_node ns p = None <-> ~ In p (map nid ns).
+Proof.
+  intros ns p. rewrite find_node_position, <- position_None.
+  destruct (position p (map nid ns)) as [i|] eqn:Hp; [|tauto].
+  split; [|discriminate]. intros H. apply position_nth in Hp. rewrite nth_error_map in Hp.
+  rewrite H in Hp. discriminate.
+Qed.
+Lemma find_node_unique : forall ns n, NoDup (map nid ns) -> In n ns -> find_node ns (nid n) = Some n.
+Proof.
+  induction ns as [|m r IH]; intros n Hnd Hin; [destruct Hin|].
+  cbn [map] in Hnd. inversion Hnd as [|? ? Hm Hr]; subst.
+  unfold find_node. cbn [find]. destruct (Z.eqb (nid m) (nid n)) eqn:He.
+  - destruct Hin as [->|Hin]; [reflexivity|]. apply Z.eqb_eq in He. exfalso. apply Hm.
+    rewrite He. apply in_map. exact Hin.
+  - destruct Hin as [->|Hin]; [rewrite Z.eqb_refl in He; discriminate|]. apply IH; assumption.
+Qed.
+
+Lemma NoDup_snoc : forall {A} (l : list A) x, NoDup l -> ~ In x l -> NoDup (l ++ [x]).
+Proof.
+  intros A l x Hnd Hn. eapply Permutation_NoDup; [apply Permutation_cons_append|].
+  constructor; assumption.
+Qed.
+
+(* ====================================================================== *)
+(* Inv.v *)
+(* ================= index_inv ================= *)
+Lemma index_inv_empty : index_inv empty.
+Proof. split; [constructor|reflexivity]. Qed.
+
+Lemma inv_idx_None : forall g p, index_inv g -> idx_get (index g) p = None -> ~ In p (map nid (nodes g)).
+Proof. intros g p [_ Hi] H. rewrite Hi in H. apply position_None. exact H. Qed.
+
+Lemma index_inv_add : forall g p, index_inv g -> index_inv (add_node_if_none g p).
+Proof.
+  intros g p Hinv. unfold add_node_if_none. destruct (idx_get (index g) p) eqn:Hg; [exact Hinv|].
+  pose proof (inv_idx_None g p Hinv Hg) as Hnin. destruct Hinv as [Hnd Hi].
+  split; cbn [nodes index].
+  - rewrite map_app. cbn [map nid]. apply NoDup_snoc; assumption.
+  - intros q. rewrite idx_get_insert, map_app, position_app. cbn [map nid position]. rewrite Hi.
+    destruct (Z.eqb p q) eqn:Hpq.
+    + apply Z.eqb_eq in Hpq. subst q. apply position_None in Hnin. rewrite Hnin. cbn [option_map].
+      rewrite map_length. f_equal. lia.
+    + destruct (position q (map nid (nodes g))); reflexivity.
+Qed.
+
+Lemma index_inv_remove : forall g p g', index_inv g -> remove g p = Ok g' -> index_inv g'.
+Proof.
+  intros g p g' Hinv H. unfold remove in H. destruct (idx_get (index g) p) as [i|] eqn:Hg.
+  - destruct (Nat.ltb i (length (nodes g))) eqn:Hlt; [|discriminate]. inversion H; subst g'; clear H.
+    destruct Hinv as [Hnd Hi]. rewrite Hi in Hg.
+    split; cbn [nodes index]; rewrite map_nid_strip, map_remove_nth.
+    + apply NoDup_remove_nth. exact Hnd.
+    + intros q. rewrite (idx_get_map (fun v => if Nat.ltb i v then pred v else v)), idx_get_remove.
+      rewrite (position_remove_nth _ p i q Hnd Hg), Hi.
+      destruct (Z.eqb p q); reflexivity.
+  - inversion H; subst g'; clear H. destruct Hinv as [Hnd Hi].
+    split; cbn [nodes index]; rewrite map_nid_strip; assumption.
+Qed.
+
+Lemma remove_no_panic : forall g p, index_inv g -> remove g p <> Panic.
+Proof.
+  intros g p [Hnd Hi]. unfold remove. destruct (idx_get (index g) p) as [i|] eqn:Hg; [|discriminate].
+  rewrite Hi in Hg. apply position_nth in Hg.
+  assert (Hlt : (i < length (map nid (nodes g)))%nat) by (apply nth_error_Some; congruence).
+  rewrite map_length in Hlt. apply Nat.ltb_lt in Hlt. rewrite Hlt. discriminate.
+Qed.
+
+Lemma index_inv_rename : forall g a b, index_inv g -> op_ok g (ORename a b) = true ->
+  index_inv (rename_path g a b).
+Proof.
+  intros g a b [Hnd Hi] Hok. cbn [op_ok] in Hok. apply andb_true_iff in Hok. destruct Hok as [H1 H2].
+  apply negb_true_iff in H1. apply memz_false in H1. apply negb_true_iff in H2. apply Z.eqb_neq in H2.
+  assert (Hba : b <> a) by congruence.
+  split; unfold rename_path; cbn [nodes index]; rewrite map_nid_rename.
+  - apply NoDup_map_ren; assumption.
+  - intros q. rewrite (position_map_ren a b _ q H1 Hba).
+    destruct (idx_get (index g) a) as [i|] eqn:Hg.
+    + rewrite idx_get_insert, idx_get_remove, Hi. rewrite Hi in Hg. rewrite Hg.
+      destruct (Z.eqb b q); [reflexivity|]. destruct (Z.eqb a q); reflexivity.
+    + rewrite Hi in Hg. rewrite Hg. rewrite Hi. destruct (Z.eqb b q) eqn:Hbq.
+      * apply Z.eqb_eq in Hbq. subst q. apply position_None. exact H1.
+      * destruct (Z.eqb a q) eqn:Haq; [|reflexivity]. apply Z.eqb_eq in Haq. subst q. exact Hg.
+Qed.
+
+(* ================= get_node ================= *)
+Lemma get_node_spec : forall g p, index_inv g -> get_node g p = Ok (find_node (nodes g) p).
+Proof.
+  intros g p [Hnd Hi]. unfold get_node. rewrite Hi, find_node_position.
+  destruct (position p (map nid (nodes g))) as [i|] eqn:Hp; [|reflexivity].
+  apply position_nth in Hp. rewrite nth_error_map in Hp.
+  destruct (nth_error (nodes g) i); [reflexivity|discriminate].
+Qed.
+
+(* ================= edges ================= *)
+Lemma edges_of_In : forall ns a d, In (a, d) (edges_of ns) <-> exists n, In n ns /\ nid n = a /\ In d (ndeps n).
+Proof.
+  intros ns a d. unfold edges_of. rewrite in_flat_map. split.
+  - intros [n [Hn Hin]]. apply in_map_iff in Hin. destruct Hin as [d' [He Hd]]. inversion He; subst.
+    exists n. auto.
+  - intros [n [Hn [Ha Hd]]]. exists n. split; [exact Hn|]. apply in_map_iff. exists d. subst. auto.
+Qed.
+Lemma edges_found : forall ns a n d, NoDup (map nid ns) -> find_node ns a = Some n ->
+  (In (a, d) (edges_of ns) <-> In d (ndeps n)).
+Proof.
+  intros ns a n d Hnd Hf. rewrite edges_of_In. split.
+  - intros [m [Hm [Ha Hd]]]. subst a. rewrite (find_node_unique ns m Hnd Hm) in Hf. inversion Hf; subst. exact Hd.
+  - intros Hd. apply find_node_Some in Hf. destruct Hf as [Hin Hid]. exists n. auto.
+Qed.
+Lemma edges_notfound : forall ns a d, find_node ns a = None -> ~ In (a, d) (edges_of ns).
+Proof.
+  intros ns a d Hf H. apply edges_of_In in H. destruct H as [n [Hn [Ha _]]].
+  apply find_node_None in Hf. apply Hf. subst a. apply in_map. exact Hn.
+Qed.
+
+(* ================= deep_depends_on ================= *)
+Definition deep_any (f : nat) (g : graph) (target : Z) :=
+  fix any (ds : list Z) (vis : list Z) {struct ds} : res (bool * list Z) :=
+    match ds with
+    | [] => Ok (false, vis)
+    | d :: ds' =>
+      do r <- deep_ f g target d vis;
+      if fst r then Ok r else any ds' (snd r)
+    end.
+
+Lemma deep_unfold : forall f g t p vis,
+  deep_ (S f) g t p vis =
+    if memz p vis then Ok (false, vis)
+    else do on <- get_node g p;
+         match on with
+         | None => Ok (false, p :: vis)
+         | Some n => if memz t (ndeps n) then Ok (true, p :: vis)
+                     else deep_any f g t (ndeps n) (p :: vis)
+         end.
+Proof. reflexivity. Qed.
+
+Definition cnt (g : graph) (vis : list Z) : nat :=
+  length (filter (fun x => negb (memz x vis)) (map nid (nodes g))).
+
+Lemma cnt_le : forall g vis, (cnt g vis <= length (nodes g))%nat.
+Proof. intros. unfold cnt. rewrite <- (map_length nid (nodes g)). apply filter_len_le. Qed.
+Lemma cnt_mono : forall g v1 v2, incl v1 v2 -> (cnt g v2 <= cnt g v1)%nat.
+Proof.
+  intros g v1 v2 Hi. unfold cnt. apply filter_len_mono. intros x _ Hx.
+  apply negb_true_iff in Hx. apply negb_true_iff. apply memz_false in Hx. apply memz_false.
+  intros H. apply Hx. apply Hi. exact H.
+Qed.
+Lemma cnt_cons : forall g p vis, In p (map nid (nodes g)) -> ~ In p vis -> (cnt g (p :: vis) < cnt g vis)%nat.
+Proof.
+  intros g p vis Hin Hn. unfold cnt. apply filter_len_strict.
+  - intros x _ Hx. apply negb_true_iff in Hx. apply negb_true_iff. apply memz_false in Hx. apply memz_false.
+    intros H. apply Hx. right. exact H.
+  - exists p. split; [exact Hin|]. split.
+    + apply negb_true_iff. apply memz_false. exact Hn.
+    + apply negb_false_iff. apply memz_In. left. reflexivity.
+Qed.
+
+Lemma deep_any_nil : forall f g t vis, deep_any f g t [] vis = Ok (false, vis).
+Proof. reflexivity. Qed.
+Lemma deep_any_cons : forall f g t d ds vis,
+  deep_any f g t (d :: ds) vis = do r <- deep_ f g t d vis; if fst r then Ok r else deep_any f g t ds (snd r).
+Proof. reflexivity. Qed.
+
+Section Deep.
+Variable g : graph.
+Variable t : Z.
+Hypothesis Hinv : index_inv g.
+Let EE := edges_of (nodes g).
+
+(* every node added to the visited set during a call that answered [false] has no edge to the target
+   and all its successors are visited *)
+Definition closed_part (vis vis' : list Z) : Prop :=
+  forall x, In x vis' -> ~ In x vis -> ~ In (x, t) EE /\ forall d, In (x, d) EE -> In d vis'.
+
+Definition deep_post (p : Z) (vis : list Z) (b : bool) (vis' : list Z) : Prop :=
+  incl vis vis' /\ (b = true -> reach EE p t) /\ (b = false -> In p vis' /\ closed_part vis vis').
+
+Definition any_post (ds : list Z) (vis : list Z) (b : bool) (vis' : list Z) : Prop :=
+  incl vis vis' /\ (b = true -> exists d, In d ds /\ reach EE d t) /\
+  (b = false -> (forall d, In d ds -> In d vis') /\ closed_part vis vis').
+
+Lemma closed_part_refl : forall vis, closed_part vis vis.
+Proof. intros vis x H1 H2. contradiction. Qed.
+
+Lemma closed_part_trans : forall v0 v1 v2, incl v1 v2 -> closed_part v0 v1 -> closed_part v1 v2 -> closed_part v0 v2.
+Proof.
+  intros v0 v1 v2 Hi H1 H2 x Hx Hn. destruct (in_dec Z.eq_dec x v1) as [Hin|Hnin].
+  - destruct (H1 x Hin Hn) as [Ha Hb]. split; [exact Ha|]. intros d Hd. apply Hi. apply Hb. exact Hd.
+  - apply H2; assumption.
+Qed.
+
+Lemma any_spec : forall f,
+  (forall p vis, (cnt g vis < f)%nat -> exists b vis', deep_ f g t p vis = Ok (b, vis') /\ deep_post p vis b vis') ->
+  forall ds vis, (cnt g vis < f)%nat ->
+    exists b vis', deep_any f g t ds vis = Ok (b, vis') /\ any_post ds vis b vis'.
+Proof.
+  intros f IHf. induction ds as [|d ds IHds]; intros vis Hc.
+  - exists false, vis. split; [reflexivity|]. split; [apply incl_refl|]. split; [discriminate|].
+    intros _. split; [intros d []|apply closed_part_refl].
+  - destruct (IHf d vis Hc) as [b1 [v1 [H1 [Hi1 [Ht1 Hf1]]]]].
+    rewrite deep_any_cons, H1. cbn [bind fst snd]. destruct b1.
+    + exists true, v1. split; [reflexivity|]. split; [exact Hi1|]. split; [|discriminate].
+      intros _. exists d. split; [left; reflexivity|apply Ht1; reflexivity].
+    + assert (Hc1 : (cnt g v1 < f)%nat) by (pose proof (cnt_mono g vis v1 Hi1); lia).
+      destruct (IHds v1 Hc1) as [b2 [v2 [H2 [Hi2 [Ht2 Hf2]]]]].
+      destruct (Hf1 eq_refl) as [Hd1 Hcl1].
+      exists b2, v2. split; [exact H2|]. split; [eapply incl_tran; eassumption|]. split.
+      * intros Hb. destruct (Ht2 Hb) as [d' [Hd' Hr]]. exists d'. split; [right; exact Hd'|exact Hr].
+      * intros Hb. destruct (Hf2 Hb) as [Hds Hcl2]. split.
+        -- intros d0 [<-|Hd0]; [apply Hi2; exact Hd1|apply Hds; exact Hd0].
+        -- exact (closed_part_trans vis v1 v2 Hi2 Hcl1 Hcl2).
+Qed.
+
+Lemma deep_spec : forall f p vis, (cnt g vis < f)%nat ->
+  exists b vis', deep_ f g t p vis = Ok (b, vis') /\ deep_post p vis b vis'.
+Proof.
+  induction f as [|f IHf]; intros p vis Hc; [lia|].
+  rewrite deep_unfold. destruct (memz p vis) eqn:Hpv.
+  - exists false, vis. split; [reflexivity|]. split; [apply incl_refl|]. split; [discriminate|].
+    intros _. split; [apply memz_In; exact Hpv|apply closed_part_refl].
+  - apply memz_false in Hpv. rewrite (get_node_spec g p Hinv). cbn [bind].
+    destruct (find_node (nodes g) p) as [n|] eqn:Hf.
+    + destruct (memz t (ndeps n)) eqn:Ht.
+      * exists true, (p :: vis). split; [reflexivity|]. split; [apply incl_tl, incl_refl|]. split; [|discriminate].
+        intros _. apply reach_edge. apply (edges_found _ _ _ _ (proj1 Hinv) Hf). apply memz_In. exact Ht.
+      * apply memz_false in Ht.
+        assert (Hpin : In p (map nid (nodes g))).
+        { apply find_node_Some in Hf. destruct Hf as [Hn Hid]. rewrite <- Hid. apply in_map. exact Hn. }
+        assert (Hc' : (cnt g (p :: vis) < f)%nat) by (pose proof (cnt_cons g p vis Hpin Hpv); lia).
+        destruct (any_spec f IHf (ndeps n) (p :: vis) Hc') as [b [v' [H [Hi [Htr Hfa]]]]].
+        exists b, v'. split; [exact H|]. split; [intros x Hx; apply Hi; right; exact Hx|]. split.
+        -- intros Hb. destruct (Htr Hb) as [d [Hd Hr]]. eapply reach_step; [|exact Hr].
+           apply (edges_found _ _ _ _ (proj1 Hinv) Hf). exact Hd.
+        -- intros Hb. destruct (Hfa Hb) as [Hds Hcl]. split; [apply Hi; left; reflexivity|].
+           intros x Hx Hnx. destruct (Z.eq_dec x p) as [->|Hxp].
+           ++ split.
+              ** intros He. apply Ht. apply (edges_found _ _ _ _ (proj1 Hinv) Hf). exact He.
+              ** intros d He. apply Hds. apply (edges_found _ _ _ _ (proj1 Hinv) Hf). exact He.
+           ++ apply Hcl; [exact Hx|]. intros [Hh|Hh]; [apply Hxp; symmetry; exact Hh|apply Hnx; exact Hh].
+    + exists false, (p :: vis). split; [reflexivity|]. split; [apply incl_tl, incl_refl|]. split; [discriminate|].
+      intros _. split; [left; reflexivity|]. intros x [Hx|Hx] Hnx; [subst x|contradiction].
+      split; [apply edges_notfound; exact Hf|]. intros d He. exfalso. eapply edges_notfound; eassumption.
+Qed.
+
+Lemma closed_no_reach : forall S, closed_part [] S -> forall x, reach EE x t -> In x S -> False.
+Proof.
+  intros S Hcl x Hr. assert (Hg : forall y, reach EE x y -> y = t -> In x S -> False).
+  { clear Hr. intros y Hr. induction Hr as [a b He|a c b He Hr IH]; intros Hy Hin; subst b.
+    - destruct (Hcl a Hin (fun H => H)) as [Hn _]. apply Hn. exact He.
+    - destruct (Hcl a Hin (fun H => H)) as [_ Hs]. apply IH; [reflexivity|]. apply Hs. exact He. }
+  intros Hin. exact (Hg t Hr eq_refl Hin).
+Qed.
+
+Lemma deep_depends_on_total : forall a, exists b, deep_depends_on g a t = Ok b /\ (b = true <-> reach EE a t).
+Proof.
+  intros a. unfold deep_depends_on.
+  assert (Hc : (cnt g [] < fuel_of g)%nat) by (unfold fuel_of; pose proof (cnt_le g []); lia).
+  destruct (deep_spec (fuel_of g) a [] Hc) as [b [v' [H [Hi [Htr Hfa]]]]].
+  rewrite H. cbn [bind fst]. exists b. split; [reflexivity|]. split; [exact Htr|].
+  intros Hr. destruct b; [reflexivity|]. exfalso. destruct (Hfa eq_refl) as [Hin Hcl].
+  eapply closed_no_reach; eassumption.
+Qed.
+End Deep.
+
+Theorem deep_depends_on_reach_l : forall g a b, index_inv g ->
+  (deep_depends_on g a b = Ok true <-> reach (E (abs g)) a b).
+Proof.
+  intros g a b Hinv. destruct (deep_depends_on_total g b Hinv a) as [r [H Hr]]. rewrite H.
+  change (E (abs g)) with (edges_of (nodes g)). rewrite <- Hr. split; [intros Hx; inversion Hx; reflexivity|intros ->; reflexivity].
+Qed.
+
+Lemma deep_depends_on_false : forall g a b, index_inv g ->
+  (deep_depends_on g a b = Ok false <-> ~ reach (E (abs g)) a b).
+Proof.
+  intros g a b Hinv. destruct (deep_depends_on_total g b Hinv a) as [r [H Hr]]. rewrite H.
+  change (E (abs g)) with (edges_of (nodes g)). rewrite <- Hr. destruct r; split; intros Hx; congruence.
+Qed.
+
+Lemma reach_dec : forall E a b, {reach E a b} + {~ reach E a b}.
+Proof.
+  intros E a b. destruct (reachb E a b) eqn:H.
+  - left. apply reachb_spec. exact H.
+  - right. intros Hr. apply reachb_spec in Hr. congruence.
+Qed.
+
+(* ================= inc_ref ================= *)
+Lemma edges_find : forall ns a x, NoDup (map nid ns) ->
+  (In (a, x) (edges_of ns) <-> exists n, find_node ns a = Some n /\ In x (ndeps n)).
+Proof.
+  intros ns a x Hnd. destruct (find_node ns a) as [n|] eqn:Hf.
+  - rewrite (edges_found ns a n x Hnd Hf). split; [intros H; exists n; auto|].
+    intros [m [Hm Hx]]. inversion Hm; subst. exact Hx.
+  - split; [intros H; exfalso; eapply edges_notfound; eassumption|]. intros [m [Hm _]]. discriminate.
+Qed.
+
+Lemma find_update_nth : forall ns i n f a, (forall m, nid (f m) = nid m) -> NoDup (map nid ns) ->
+  nth_error ns i = Some n ->
+  find_node (update_nth ns i f) a = if Z.eqb (nid n) a then Some (f n) else find_node ns a.
+Proof.
+  induction ns as [|m r IH]; intros i n f a Hf Hnd Hn; destruct i; cbn [nth_error] in Hn; try discriminate.
+  - inversion Hn; subst m. cbn [update_nth]. unfold find_node. cbn [find]. rewrite Hf.
+    destruct (Z.eqb (nid n) a); reflexivity.
+  - cbn [map] in Hnd. inversion Hnd as [|? ? Hm Hr]; subst. cbn [update_nth]. unfold find_node. cbn [find].
+    fold (find_node (update_nth r i f) a). fold (find_node r a). rewrite (IH i n f a Hf Hr Hn).
+    destruct (Z.eqb (nid m) a) eqn:Hma; [|reflexivity].
+    destruct (Z.eqb (nid n) a) eqn:Hna; [|reflexivity].
+    apply Z.eqb_eq in Hma. apply Z.eqb_eq in Hna. exfalso. apply Hm. rewrite Hma, <- Hna.
+    apply in_map. eapply nth_error_In. exact Hn.
+Qed.
+
+Lemma add_node_ids : forall g p, index_inv g ->
+  set_eq (map nid (nodes (add_node_if_none g p))) (p :: map nid (nodes g)).
+Proof.
+  intros g p [Hnd Hi] x. unfold add_node_if_none. destruct (idx_get (index g) p) eqn:Hg; cbn [nodes].
+  - rewrite Hi in Hg. apply position_Some_In in Hg. cbn [In]. split; [auto|]. intros [<-|H]; assumption.
+  - rewrite map_app, in_app_iff. cbn [map nid In]. tauto.
+Qed.
+Lemma add_node_edges : forall g p, edges_of (nodes (add_node_if_none g p)) = edges_of (nodes g).
+Proof.
+  intros g p. unfold add_node_if_none. destruct (idx_get (index g) p); [reflexivity|]. cbn [nodes].
+  unfold edges_of. rewrite flat_map_app. cbn [flat_map ndeps map app]. apply app_nil_r.
+Qed.
+
+Definition push_dep (d : Z) (n : node) : node := {| nid := nid n; ndeps := set_insert d (ndeps n) |}.
+
+Lemma inc_ref_spec : forall g r d, index_inv g ->
+  let g1 := add_node_if_none g r in
+  (r = d -> inc_ref g r d = Ok (IncOk, g1)) /\
+  (r <> d -> reach (edges_of (nodes g)) d r -> inc_ref g r d = Ok (IncCycle, g1)) /\
+  (r <> d -> ~ reach (edges_of (nodes g)) d r ->
+     exists g2, inc_ref g r d = Ok (IncOk, g2) /\ index_inv g2 /\
+                map nid (nodes g2) = map nid (nodes g1) /\
+                forall e, In e (edges_of (nodes g2)) <-> e = (r, d) \/ In e (edges_of (nodes g))).
+Proof.
+  intros g r d Hinv g1. pose proof (index_inv_add g r Hinv) as Hinv1. fold g1 in Hinv1.
+  unfold inc_ref. fold g1. split; [|split].
+  - intros ->. rewrite Z.eqb_refl. reflexivity.
+  - intros Hne Hr. apply Z.eqb_neq in Hne. rewrite Hne.
+    rewrite <- (add_node_edges g r) in Hr. fold g1 in Hr.
+    apply (deep_depends_on_reach_l g1 d r Hinv1) in Hr. rewrite Hr. reflexivity.
+  - intros Hne Hr. apply Z.eqb_neq in Hne. rewrite Hne.
+    rewrite <- (add_node_edges g r) in Hr. fold g1 in Hr.
+    apply (deep_depends_on_false g1 d r Hinv1) in Hr. rewrite Hr. cbn [bind].
+    destruct Hinv1 as [Hnd1 Hi1].
+    assert (Hin : In r (map nid (nodes g1))) by (apply (add_node_ids g r Hinv); left; reflexivity).
+    destruct (position r (map nid (nodes g1))) as [i|] eqn:Hp; [|apply position_None in Hp; contradiction].
+    rewrite Hi1, Hp. pose proof (position_nth _ _ _ Hp) as Hnth. rewrite nth_error_map in Hnth.
+    destruct (nth_error (nodes g1) i) as [n|] eqn:Hn; [|discriminate]. cbn [option_map] in Hnth.
+    inversion Hnth as [Hid]. clear Hnth.
+    eexists. split; [reflexivity|]. cbn [nodes index].
+    set (f := fun n0 : node => {| nid := nid n0; ndeps := set_insert d (ndeps n0) |}).
+    assert (Hids : map nid (update_nth (nodes g1) i f) = map nid (nodes g1)) by (apply map_update_nth; reflexivity).
+    split; [|split].
+    + split; cbn [nodes index]; rewrite Hids; assumption.
+    + exact Hids.
+    + intros [a x]. rewrite <- (add_node_edges g r). fold g1.
+      rewrite edges_find by (rewrite Hids; exact Hnd1). rewrite (edges_find (nodes g1)) by exact Hnd1.
+      rewrite (find_update_nth (nodes g1) i n f a (fun _ => eq_refl) Hnd1 Hn). rewrite Hid.
+      destruct (Z.eqb r a) eqn:Hra.
+      * apply Z.eqb_eq in Hra. subst a.
+        assert (Hfn : find_node (nodes g1) r = Some n).
+        { rewrite <- Hid. apply find_node_unique; [exact Hnd1|]. eapply nth_error_In. exact Hn. }
+        rewrite Hfn. split.
+        -- intros [m [Hm Hx]]. inversion Hm; subst m. cbn [ndeps] in Hx. apply set_insert_In in Hx.
+           destruct Hx as [->|Hx]; [left; reflexivity|right; exists n; auto].
+        -- intros [He|[m [Hm Hx]]]; eexists; (split; [reflexivity|]); cbn [ndeps]; apply set_insert_In.
+           ++ inversion He. left. reflexivity.
+           ++ inversion Hm; subst m. right. exact Hx.
+      * apply Z.eqb_neq in Hra. split; [intros H; right; exact H|]. intros [He|H]; [|exact H].
+        inversion He. congruence.
+Qed.
+
+Lemma index_inv_inc : forall g r d x, index_inv g -> inc_ref g r d = Ok x -> index_inv (snd x).
+Proof.
+  intros g r d x Hinv H. destruct (inc_ref_spec g r d Hinv) as [H1 [H2 H3]].
+  destruct (Z.eq_dec r d) as [Heq|Hne].
+  - rewrite (H1 Heq) in H. inversion H; subst x. apply index_inv_add. exact Hinv.
+  - destruct (reach_dec (edges_of (nodes g)) d r) as [Hr|Hr].
+    + rewrite (H2 Hne Hr) in H. inversion H; subst x. apply index_inv_add. exact Hinv.
+    + destruct (H3 Hne Hr) as [g2 [Hg2 [Hi2 _]]]. rewrite Hg2 in H. inversion H; subst x. exact Hi2.
+Qed.
